@@ -39,7 +39,7 @@ type scenario struct {
 	Keys       []uint32          `json:"keys"`
 	Outcomes   map[string]string `json:"outcomes"`  // addr -> ok | client | server
 	Prio       []string          `json:"priority"`  // completion order: highest-priority parked call is released first
-	CancelAt   int               `json:"cancel_at"` // -1: before the call; k: after the k-th completion; 99: never
+	CancelAt   int               `json:"cancel_at"` // -2: with every call in flight; -1: before the call; k: after the k-th completion; 99: never
 	Workers    int               `json:"workers"`   // 0: plain goroutines; n: pool of n workers as custom spawner
 	DefaultCls bool              `json:"default_classifier"`
 }
@@ -173,6 +173,13 @@ func execute(t *testing.T, sc scenario) (res result) {
 			cancelled = true
 		}
 		vx.Wait()
+		if sc.CancelAt == -2 && !getFails {
+			// the caller gives up while every replica call is in flight and none has answered
+			cancel(cause)
+			cancelled = true
+			vx.Wait()
+			res.nontrivial = true
+		}
 		if getFails {
 			mu.Lock()
 			defer mu.Unlock()
@@ -392,7 +399,7 @@ func TestBatchRapid(t *testing.T) {
 		sc.Prio = rapid.Permutation(addrs(ins)).Draw(rt, "order")
 		sc.CancelAt = 99
 		if rapid.IntRange(0, 2).Draw(rt, "cancel") == 0 {
-			sc.CancelAt = rapid.IntRange(-1, len(ins)).Draw(rt, "cancelAt")
+			sc.CancelAt = rapid.IntRange(-2, len(ins)).Draw(rt, "cancelAt")
 		}
 		if rapid.IntRange(0, 2).Draw(rt, "pool") == 0 {
 			sc.Workers = rapid.IntRange(1, 3).Draw(rt, "workers")
@@ -482,7 +489,7 @@ func TestBatchExhaustive(t *testing.T) {
 				c /= 3
 			}
 			for _, p := range perms {
-				for cancelAt := -1; cancelAt <= n; cancelAt++ {
+				for cancelAt := -2; cancelAt <= n; cancelAt++ {
 					idx++
 					if !vx.Mine(idx) {
 						continue
